@@ -6,6 +6,10 @@
 2. spec -> code: TLC-simulated behaviours (valid / wrong-key / truncated / garbage / malformed-header / forbidden-destination
    datagrams on new and known associations, all payload size classes, replies from the addressed target, another port,
    strangers, IPv4 and IPv6) executed through service.NewPacketHandler(...).Handle on real sockets with mixed-cipher key lists.
+   A fourth family (Gen_UdpNatRealSwitch.cfg) keeps ONE association per client alive and switches its target between
+   destinations whose address headers are equally long (other port of the same IP, other IP, IPv6, same host name with another
+   port, another host name of equal length): A,A,B / A,B,A / A,B,B,A ...; FwdToNamed: the target named in THIS datagram's header
+   receives it, no other target does.
 3. code -> spec: what targets, clients (decrypting with the SDK under every key) and the metrics sink observed is judged by
    UdpNatTrace with C03's predicates.
 """
@@ -33,7 +37,8 @@ def nontrivial(b):
 def run(ctx):
     q = ctx.quick
     U.exhaustive(ctx, ["MC_UdpNatC03.cfg", "MC_UdpNatSync.cfg"] if q else ["MC_UdpNatC03T.cfg", "MC_UdpNatSync.cfg", "MC_UdpNatLong.cfg"], "C03")
-    fams = U.real_families(ctx, "c03", 70 if q else 450, 45 if q else 300, U.PROPS["C03"], want={"salt"}, n_focus=0 if q else 40)
+    fams = U.real_families(ctx, "c03", 70 if q else 450, 45 if q else 300, U.PROPS["C03"], want={"salt"}, n_focus=0 if q else 40,
+                           n_switch=30 if q else 150)
     for fam, behs, trace, sums in fams:
         ctx.cov["evaluations"] += len(behs)
         ctx.cov["distinct_nontrivial"] += U.count(behs, nontrivial)
